@@ -312,11 +312,11 @@ theorem redirectSearchFrom_plain_nil (s : Str) (hs : ∀ c ∈ s, c ≠ '?' ∧ 
 
 /-! ## `infer_redirection` leaves such a url alone -/
 
-theorem infer_eq_self (u : Str) (h1 : domainSplit u = none) (h2 : redirectSearch u = none) :
-    infer u = u := by
-  unfold infer
-  rw [inferOf]
-  simp [inferTarget, h1, h2]
+/-- `infer_redirection` looks for its hints in the cleaned url (`cleanedUrl`: control characters
+removed, stripped) and returns its argument when it finds none -/
+theorem infer_eq_self (u : Str) (h1 : domainSplit (cleanedUrl u) = none)
+    (h2 : redirectSearch (cleanedUrl u) = none) : infer u = u :=
+  infer_eq_self_of_clean u h1 h2
 
 /-! ## `QUERY_LIST_RE.search` / `QUERY_V_RE.search` on the canonical video url -/
 
@@ -518,34 +518,69 @@ structure Obligations : Prop where
 /-! ## `infer_redirection` on the canonical urls -/
 
 theorem infer_canonical (ob : Obligations) (P s : Str) (hP1 : domainSplit P = none)
-    (hP2 : prefixClean P true = true) (hs : ∀ c ∈ s, c ≠ '/' ∧ c ≠ '?' ∧ c ≠ '&') :
+    (hP2 : prefixClean P true = true) (hs : ∀ c ∈ s, c ≠ '/' ∧ c ≠ '?' ∧ c ≠ '&')
+    (hPc : cleanEnds P = true) :
     infer (P ++ s) = P ++ s := by
+  -- behind the clean prefix the cleaning only removes characters of `s`
+  have hs' : ∀ c ∈ rstrip (UrlParts.stripControl s), c ≠ '/' ∧ c ≠ '?' ∧ c ≠ '&' :=
+    fun c hc => hs c (mem_of_mem_stripControl (mem_of_mem_rstrip hc))
   apply infer_eq_self
-  · exact domainSplit_within ob.cacheHosts P s (fun h => (hs _ h).1 rfl) hP1
-  · unfold redirectSearch
-    exact redirectSearchFrom_prefix P s true hP2
-      (redirectSearchFrom_plain_nil s (fun c hc => ⟨(hs c hc).2.1, (hs c hc).2.2⟩))
+  · rw [cleanedUrl_prefix P s hPc]
+    exact domainSplit_within ob.cacheHosts P _ (fun h => (hs' _ h).1 rfl) hP1
+  · rw [cleanedUrl_prefix P s hPc]
+    unfold redirectSearch
+    exact redirectSearchFrom_prefix P _ true hP2
+      (redirectSearchFrom_plain_nil _ (fun c hc => ⟨(hs' c hc).2.1, (hs' c hc).2.2⟩))
+
+/-- the video url as `infer_redirection` reads it: the id and the playlist id may lose characters
+(control characters, trailing whitespace), the frame stays -/
+theorem cleanedUrl_video (id tail : Str)
+    (ht : tail = [] ∨ ∃ p, tail = listInfix ++ p ∧ ∀ c ∈ p, c ≠ '/' ∧ c ≠ '?' ∧ c ≠ '&') :
+    ∃ id' tail', cleanedUrl (videoPrefix ++ (id ++ tail)) = videoPrefix ++ (id' ++ tail') ∧
+      (∀ c ∈ id', c ∈ id) ∧
+      (tail' = [] ∨ ∃ p, tail' = listInfix ++ p ∧ ∀ c ∈ p, c ≠ '/' ∧ c ≠ '?' ∧ c ≠ '&') := by
+  rw [cleanedUrl_prefix videoPrefix _ (by decide)]
+  rcases ht with e | ⟨p, e, hp⟩
+  · subst e
+    refine ⟨rstrip (UrlParts.stripControl id), [], by simp, ?_, Or.inl rfl⟩
+    intro c hc
+    exact mem_of_mem_stripControl (mem_of_mem_rstrip hc)
+  · subst e
+    have e1 : UrlParts.stripControl (id ++ (listInfix ++ p)) =
+        (UrlParts.stripControl id ++ listInfix) ++ UrlParts.stripControl p := by
+      rw [stripControl_append, stripControl_append]
+      have : UrlParts.stripControl listInfix = listInfix := by decide
+      rw [this, List.append_assoc]
+    rw [e1, rstrip_prefix _ _ (by simp [listInfix])
+      (by intro c hc; rw [List.getLast?_append] at hc; simp [listInfix] at hc; rw [← hc]; decide)]
+    refine ⟨UrlParts.stripControl id, listInfix ++ rstrip (UrlParts.stripControl p), by simp,
+      fun c hc => mem_of_mem_stripControl hc, Or.inr ⟨_, rfl, ?_⟩⟩
+    intro c hc
+    exact hp c (mem_of_mem_stripControl (mem_of_mem_rstrip hc))
 
 theorem infer_video (ob : Obligations) (id : Str) (hid : ∀ c ∈ id, isIdChar c = true)
     (tail : Str) (ht : tail = [] ∨ ∃ p, tail = listInfix ++ p ∧ ∀ c ∈ p, c ≠ '/' ∧ c ≠ '?' ∧ c ≠ '&') :
     infer (videoPrefix ++ (id ++ tail)) = videoPrefix ++ (id ++ tail) := by
-  have hidc : ∀ c ∈ id, c ≠ '/' ∧ c ≠ '?' ∧ c ≠ '&' := fun c hc =>
-    let h := isIdChar_ne c (hid c hc); ⟨h.2.2.2.2.1, h.2.2.2.1, h.2.1⟩
+  obtain ⟨id', tail', hclean, hsub, ht'⟩ := cleanedUrl_video id tail ht
+  have hidc : ∀ c ∈ id', c ≠ '/' ∧ c ≠ '?' ∧ c ≠ '&' := fun c hc =>
+    let h := isIdChar_ne c (hid c (hsub c hc)); ⟨h.2.2.2.2.1, h.2.2.2.1, h.2.1⟩
   apply infer_eq_self
-  · apply domainSplit_within ob.cacheHosts videoPrefix _ _ (by decide)
+  · rw [hclean]
+    apply domainSplit_within ob.cacheHosts videoPrefix _ _ (by decide)
     intro h
     rcases List.mem_append.mp h with h | h
     · exact (hidc _ h).1 rfl
-    · rcases ht with e | ⟨p, e, hp⟩
+    · rcases ht' with e | ⟨p, e, hp⟩
       · rw [e] at h; simp at h
       · rw [e] at h
         rcases List.mem_append.mp h with h | h
         · revert h; decide
         · exact (hp _ h).1 rfl
-  · unfold redirectSearch
+  · rw [hclean]
+    unfold redirectSearch
     apply redirectSearchFrom_prefix videoPrefix _ true (by decide)
-    rw [redirectSearchFrom_plain id tail (fun c hc => ⟨(hidc c hc).2.1, (hidc c hc).2.2⟩)]
-    rcases ht with e | ⟨p, e, hp⟩
+    rw [redirectSearchFrom_plain id' tail' (fun c hc => ⟨(hidc c hc).2.1, (hidc c hc).2.2⟩)]
+    rcases ht' with e | ⟨p, e, hp⟩
     · rw [e]; rfl
     · rw [e]
       exact redirectSearchFrom_prefix listInfix p false (by decide)
@@ -801,6 +836,7 @@ theorem parse_path_url (puny : Str → Str) (t : T) (hT : KnowsWww puny t) (ob :
     (hP2 : prefixClean ("https://www.youtube.com".toList ++ route) true = true)
     (hP3 : searchClean "next=%2fwatch%3fv%3d".toList ("https://www.youtube.com".toList ++ route) = true)
     (hP4 : searchClean "next%3d%252fwatch%253fv%253d".toList ("https://www.youtube.com".toList ++ route) = true)
+    (hPc : cleanEnds ("https://www.youtube.com".toList ++ route) = true)
     (hroute : ∃ r, route = '/' :: r)
     (hroutec : ∀ c ∈ route, c ≠ '?' ∧ c ≠ '#' ∧ isUnsafeUrlChar c = false)
     (hs : Plain s) (hn : NoCont s) :
@@ -825,7 +861,7 @@ theorem parse_path_url (puny : Str → Str) (t : T) (hT : KnowsWww puny t) (ob :
     · exact (show ∀ c ∈ "https://www.youtube.com".toList, isUnsafeUrlChar c = false by decide) c h
     · exact (hpath c h).2.2
   rw [parse_of_canonical puny t _ fix _
-    (infer_canonical ob _ s hP1 hP2 (fun c hc => ⟨(hs c hc).1, (hs c hc).2.1, (hs c hc).2.2.2.1⟩))
+    (infer_canonical ob _ s hP1 hP2 (fun c hc => ⟨(hs c hc).1, (hs c hc).2.1, (hs c hc).2.2.2.1⟩) hPc)
     hsafe (noCont_or _ (noCont_prefix _ s hP3 hP4 hn))
     (heq ▸ hsplit) (isYoutubeParsed_www puny t hT _ _)]
   exact parseSplit_www fix _ _ _
@@ -937,26 +973,26 @@ theorem reparse_of_good (puny : Str → Str) (t : T) (hT : KnowsWww puny t) (ob 
       let h := isIdChar_ne c (hid c hc)
       ⟨h.2.2.2.2.1, h.2.2.2.1, h.2.2.1, h.2.1, h.2.2.2.2.2.2⟩
     have hnc : NoCont id := noCont_of_no_pct id (fun h => (isIdChar_ne _ (hid _ h)).2.2.2.2.2.1 rfl)
-    have := parse_path_url puny t hT ob "/shorts/".toList id true (by decide) (by decide) (by decide) (by decide)
+    have := parse_path_url puny t hT ob "/shorts/".toList id true (by decide) (by decide) (by decide) (by decide) (by decide)
       ⟨_, rfl⟩ (by decide) hplain hnc
     have hu : recordUrl (.short id) = "https://www.youtube.com".toList ++ "/shorts/".toList ++ id := rfl
     rw [hu, this]
     exact routePath_shorts id [] _ hv.1 (hv.2 rfl)
   | .user name, hv, hg =>
-    have := parse_path_url puny t hT ob "/user/".toList name true (by decide) (by decide) (by decide) (by decide)
+    have := parse_path_url puny t hT ob "/user/".toList name true (by decide) (by decide) (by decide) (by decide) (by decide)
       ⟨_, rfl⟩ (by decide) hg.1 hg.2.2
     have hu : recordUrl (.user name) = "https://www.youtube.com".toList ++ "/user/".toList ++ name := rfl
     rw [hu, this]
     exact routePath_user true name [] _ hv (fun h => (hg.1 _ h).1 rfl) (fun h => (hg.1 _ h).2.2.2.1 rfl) hg.2.1
   | .channel (some cid) none, hv, hg =>
-    have := parse_path_url puny t hT ob "/channel/".toList cid true (by decide) (by decide) (by decide) (by decide)
+    have := parse_path_url puny t hT ob "/channel/".toList cid true (by decide) (by decide) (by decide) (by decide) (by decide)
       ⟨_, rfl⟩ (by decide) hg.1 hg.2.2
     have hu : recordUrl (.channel (some cid) none) =
         "https://www.youtube.com".toList ++ "/channel/".toList ++ cid := rfl
     rw [hu, this]
     exact routePath_channel true cid [] _ hv (fun h => (hg.1 _ h).1 rfl) (fun h => (hg.1 _ h).2.2.2.1 rfl) hg.2.1
   | .channel none (some name), hv, hg =>
-    have := parse_path_url puny t hT ob "/".toList name true (by decide) (by decide) (by decide) (by decide)
+    have := parse_path_url puny t hT ob "/".toList name true (by decide) (by decide) (by decide) (by decide) (by decide)
       ⟨_, rfl⟩ (by decide) hg.1 hg.2
     have hu : recordUrl (.channel none (some name)) =
         "https://www.youtube.com".toList ++ "/".toList ++ name := rfl
